@@ -488,6 +488,8 @@ def run(repo, rep, tier):
     fna = repo.func(MOD, "velocity_aphelion")
     an_ = [a.arg for a in fna.args.args]
     va = ret_term(repo, MOD, "velocity_aphelion", arg_terms={an_[0]: T.sym("E_"), an_[1]: T.sym("A")})
+    from ..rules import inline_repo_calls
+    v, vp, va = (inline_repo_calls(repo, x_, only_mod=MOD) for x_ in (v, vp, va))
     A_, E_ = T.sym("A"), T.sym("E_")
     cases = [("velocity(a(1-e), a)^2 vs velocity_perihelion^2", T.subst(T.mul(v, v), {T.sym("R"): T.mul(A_, T.sub(T.ONE, E_))}), T.mul(vp, vp)),
              ("velocity(a(1+e), a)^2 vs velocity_aphelion^2", T.subst(T.mul(v, v), {T.sym("R"): T.mul(A_, T.add(T.ONE, E_))}), T.mul(va, va)),
